@@ -602,6 +602,8 @@ def parser_roles(ctx):
 
 
 def check(ctx):
+    from .common import shadowing_audit
+    ctx.floor("R05.4", shadowing_audit(ctx, "R05.4", ("push::instruction::NumOpens",)), 10, "NumOpens impls of workspace types (shadowing audit)")
     from .ctors import check_table
     check_table(ctx, "C05", "R05.6")
     F = ctx.F
